@@ -12,8 +12,9 @@ the model's bytes.
 independently of the encoder: the only structure it adds is the nesting the protocol demands
 (`regroup`: topics in order of first occurrence, each with its partitions in the order given).
 Arguments the grammar has no representation for are `outOfRange` (a null where the protocol has a
-non-nullable field, two payloads for one (topic, partition), a version the client does not
-implement, a magic-1 message in a request older than Produce v2).
+non-nullable field, a version the client does not implement, a magic-1 message in a request older
+than Produce v2).  Payload lists that name one (topic, partition) twice ARE covered: the grammar
+expects both payloads (afkak's encoders refuse such a list, so no frame exists to fail).
 -/
 namespace Afkak.Monitor.C04
 open Afkak Afkak.Wire Afkak.Codec
@@ -45,12 +46,6 @@ def firstOccurrences : List Bytes → List Bytes
 def regroup {β : Type} (xs : List (Bytes × β)) : List (Bytes × List β) :=
   (firstOccurrences (xs.map (·.1))).map (fun t => (t, (xs.filter (fun x => x.1 == t)).map (·.2)))
 
-/-- no two payloads name the same (topic, partition) -/
-def distinctKeys (keys : List (Bytes × Int)) : Bool :=
-  match keys with
-  | [] => true
-  | k :: ks => !(ks.contains k) && distinctKeys ks
-
 /-- one payload as `(topic, (partition, item))`; `none` for a null topic or an item the grammar cannot carry -/
 def keyOne {α β : Type} (topic : α → Option Bytes) (partition : α → Int) (item : α → Option β) (x : α) :
     Option (Bytes × (Int × β)) :=
@@ -58,12 +53,12 @@ def keyOne {α β : Type} (topic : α → Option Bytes) (partition : α → Int)
   | some t, some b => some (t, (partition x, b))
   | _, _ => none
 
-/-- topic-keyed payloads, all topics non-null, all (topic, partition) distinct -/
+/-- topic-keyed payloads; all topics must be non-null.  A list that names one (topic, partition) twice
+    is a value like any other: the grammar then expects BOTH payloads in the request (a request
+    that carries only one of them does not conform). -/
 def keyed {α β : Type} (topic : α → Option Bytes) (partition : α → Int) (item : α → Option β)
     (xs : List α) : Option (List (Bytes × (Int × β))) :=
-  match xs.mapM (keyOne topic partition item) with
-  | none => none
-  | some l => if distinctKeys (l.map (fun e => (e.1, e.2.1))) then some l else none
+  xs.mapM (keyOne topic partition item)
 
 /-! ## messages -/
 
